@@ -231,6 +231,47 @@ theorem movedEnts_old (old new : List T) (src : Nat → Nat) :
         · exact ih x h
     · exact ih x h
 
+theorem appendEnts_new : (n : Nat) → (vs : List T) → ∀ x ∈ appendEnts n vs, n ≤ x.1 ∧ x.2.2 = vs[x.1 - n]?
+  | _, [], x, h => by simp [appendEnts] at h
+  | n, v :: vs, x, h => by
+    simp only [appendEnts, List.mem_cons] at h
+    rcases h with rfl | h
+    · simp
+    · obtain ⟨h1, h2⟩ := appendEnts_new (n + 1) vs x h
+      refine ⟨by omega, ?_⟩
+      rw [h2]
+      have : x.1 - n = (x.1 - (n + 1)) + 1 := by omega
+      rw [this]; simp
+
+theorem clearEnts_new : (n : Nat) → (vs : List T) → ∀ x ∈ clearEnts n vs, x.2.2 = none
+  | _, [], x, h => by simp [clearEnts] at h
+  | n, v :: vs, x, h => by
+    simp only [clearEnts, List.mem_cons] at h
+    rcases h with rfl | h
+    · rfl
+    · exact clearEnts_new (n + 1) vs x h
+
+theorem movedEnts_new (old new : List T) (src : Nat → Nat) :
+    (c : Nat) → ∀ x ∈ movedEnts old new src c, x.2.2 = new[x.1]?
+  | 0, x, h => by simp [movedEnts] at h
+  | c + 1, x, h => by
+    have ih := movedEnts_new old new src c
+    simp only [movedEnts] at h
+    split at h
+    · next o nn ho hn =>
+      split at h
+      · exact ih x h
+      · simp only [List.mem_cons] at h
+        rcases h with rfl | h
+        · exact hn.symm
+        · exact ih x h
+    · exact ih x h
+
+theorem insertAt_get (xs : List T) (p : Nat) (v : T) (hp : p ≤ xs.length) : (Pg.C08.insertAt xs p v)[p]? = some v := by
+  simp only [Pg.C08.insertAt]
+  rw [List.getElem?_append_right (by simp [List.length_take]; omega)]
+  simp [List.length_take, Nat.min_eq_left hp]
+
 theorem sliceEnts_old (xs : List T) (start size : Nat) (vs : List T) :
     (c : Nat) → ∀ x ∈ sliceEnts xs start size vs c, x.2.1 = none ∨ x.2.1 = xs[x.1]?
   | 0, x, h => by simp [sliceEnts] at h
